@@ -34,13 +34,14 @@ Oracles
   coeffs  get_universal_coeffs(l)[m] == (2 - delta_0m)(l-m)!/(l+m)! (exact Fraction -> double, 1 ulp), keys
           exactly 0..l, through the dispatcher and through .py_func.
 
-Tolerance (calibrated on the unchanged tree, 205 angles per degree incl. 0, pi and pi +- 1e-8):
+Tolerance (calibrated on the unchanged tree, 1527 angles per degree incl. 0, pi/2, pi, 10^-k and pi-10^-k, un-jitted
+and compiled):
   |table - oracle| <= TOL * max(1, max_I F_lmp^2),  TOL = 1e-10.
-  Worst deviation measured: 5.6e-16 (l=2), 1.4e-15 (l=3), 4.0e-15 (l=4), 6.6e-14 (l=5), 1.2e-13 (l=6 without
-  the defective cell), 1.5e-12 (l=7, cell (1,5): the hand-expanded polynomial in sin(I/2) cancels 3 digits).
-  DESIGN planned 1e-11, which leaves only 7x over the l=7 worst case; 1e-10 leaves 65x and is still
-  > 4 orders of magnitude below the effect of any single wrong digit/exponent in a table entry (a slip changes
-  the entry by >= 1e-3 of its maximum at generic angles; see the mutations below).
+  Worst deviation measured: 7.9e-16 (l=2), 1.6e-15 (l=3), 5.2e-15 (l=4), 8.2e-14 (l=5), 8.0e-13 (l=6, cell (2,3),
+  without the defective cell), 1.8e-12 (l=7, cells (1,5)/(3,4): the hand-expanded polynomials in sin(I/2), cos I
+  cancel 3-4 digits near I = 2.7).  DESIGN planned 1e-11, which leaves only 6x over the l=7 worst case; 1e-10 leaves
+  55x and is still > 4 orders of magnitude below the effect of any single wrong digit/exponent in a table entry (a
+  slip changes the entry by >= 1e-3 of its maximum at generic angles; see the mutations below).
 
 Known finding KF-C09-l6-m3-p3 (genuine defect, .py, NOT repaired here: proposed patch
 /verif/out/proposed-fix-C09-1.diff): orderl6.py (3,3) ends in `*cos_i_half` where Kaula's F_633^2 needs
@@ -76,16 +77,16 @@ LEVEL_TEXT = ('Every one of the 199 (l,m,p) cells, l=2..7, of the full and obliq
 LEVEL_NOTE = ('Trusts mpmath sin/cos at 40 digits, python integer/Fraction arithmetic and the transcription of Kaula eq. 3.62 in '
               'oracles/kaula.py, which is itself validated on every run against closed forms and the defining rotation identity; '
               'quick tier exercises the compiled array signature only for l<=4 and the multi-degree helpers for L<=4.')
-CASES = {'quick': 3000, 'thorough': 300000}
+CASES = {'quick': 3000, 'thorough': 600000}
 SHARDS = {'quick': 8, 'thorough': 16}
 TOL = 1e-10
 EPS = 2.0 ** -52
-RULE = ('fixed: every (l in 2..7, call path) with the 65-angle grid k*pi/64; generated: l uniform in 2..7, call path, 1..6 '
-        'obliquities from [0,pi] (uniform | 0 | pi | pi/2 | 10^-k | pi-10^-k, k in 1..12). Every case checks all (m,p) of its '
+RULE = ('fixed: every (l in 2..7, call path) with the 65-angle grid k*pi/64; generated: l in 2..7, call path, 1..6 '
+        'obliquities from [0,pi] (uniform (hash-spread) | 0 | pi | pi/2 | 10^-k | pi-10^-k, k in 1..12). Every case checks all (m,p) of its '
         'degree in the full table, the off table and the universal coefficients. Non-trivial = the case contains an obliquity '
         'strictly inside (0,pi) other than pi/2; distinct = distinct (l, path, obliquity list).')
 ASSUMPTIONS = ['oracle: Kaula 1966 eq. 3.62 with exact rational coefficients, mpmath 40 digits (oracles/kaula.py), self-tested',
-               'tolerance |table-oracle| <= 1e-10*max(1,max_I F^2): >= 65x the worst rounding error measured (1.5e-12, l=7 (1,5))',
+               'tolerance |table-oracle| <= 1e-10*max(1,max_I F^2): 55x the worst rounding error measured (1.8e-12, l=7)',
                'off-table values and universal coefficients: exact rational -> double, 1 ulp',
                'a trigonometric polynomial of degree <= 14 is determined by 29 points; 65 fixed + generated are used per cell']
 
@@ -134,14 +135,24 @@ def in_domain(case):
         return False
 
 
+def _fill(d):
+    """Continuous obliquities are a blake2b hash of what Hypothesis drew (st.floats and wide st.integers are deliberately
+    biased towards 0, boundaries and tiny magnitudes); Hypothesis chooses the degree, the call path, how many angles
+    and which of them sit on special values, plus salts.  Every random choice still comes from the seeded strategy."""
+    import hashlib
+    import json
+    h = hashlib.blake2b(json.dumps(d, sort_keys=True, default=repr).encode(), digest_size=32).digest()
+    out = []
+    for j, kind in enumerate(d['angles']):
+        w = hashlib.blake2b(h + j.to_bytes(4, 'little'), digest_size=8).digest()
+        u = (int.from_bytes(w, 'little') >> 11) / float(1 << 53)
+        k = 1 + int(u * 12) % 12
+        out.append({'u': math.pi * u, 'zero': 0.0, 'pi': math.pi, 'half': math.pi / 2, 'near0': 10.0 ** -k,
+                    'nearpi': math.pi - 10.0 ** -k}[kind])
+    return {'l': d['l'], 'path': d['path'], 'obl': out}
+
+
 def strategy(tier):
-    ks = st.integers(1, 12)
-    # uniform by construction: st.floats / wide st.integers favour 0 and tiny values; <= 24-bit bounded integers are uniform
-    uni = st.tuples(st.integers(0, 2 ** 24 - 1), st.integers(0, 2 ** 24 - 1)).map(
-        lambda kk: math.pi * ((kk[0] + kk[1] / 2.0 ** 24) / 2.0 ** 24))
-    obl = st.one_of(uni, uni, uni, uni, st.floats(0.0, math.pi),
-                    st.sampled_from([0.0, math.pi, math.pi / 2]),
-                    ks.map(lambda k: 10.0 ** -k), ks.map(lambda k: math.pi - 10.0 ** -k))
     if tier == 'quick':
         paths = ['py'] * 5 + ['jit_scalar'] * 2 + ['jit_array', 'multi_py', 'multi_jit']
     else:
@@ -151,8 +162,11 @@ def strategy(tier):
         if not _allowed(tier, c['l'], c['path']):
             c = dict(c, path='py')
         return c
-    return st.fixed_dictionaries({'l': st.integers(2, 7), 'path': st.sampled_from(paths),
-                                  'obl': st.lists(obl, min_size=1, max_size=6)}).map(fix)
+    angle = st.sampled_from(['u'] * 8 + ['zero', 'pi', 'half', 'near0', 'nearpi'])
+    return st.fixed_dictionaries({'l': st.sampled_from([2, 3, 4, 5, 6, 7]), 'path': st.sampled_from(paths),
+                                  'angles': st.lists(angle, min_size=1, max_size=6),
+                                  'salt': st.tuples(st.integers(0, 2 ** 48), st.floats(0.0, 1.0), st.integers(0, 1023))}
+                                 ).map(_fill).map(fix)
 
 
 def fixed_cases(tier):
